@@ -1,6 +1,7 @@
 package vc
 
 import (
+	"sort"
 	"fmt"
 	"go/types"
 	"strings"
@@ -179,6 +180,13 @@ func (p *Program) VerifyFunc(key string) (u *Unit, err error) {
 				Src: fmt.Sprintf("loop contract %d does not bind to a loop", lc.N)})
 		}
 	}
+	// an `at call` assertion constrains calls that go through the callee's contract: one that met no such call says nothing
+	for i := range fc.CallAsserts {
+		if ca := fc.CallAsserts[i]; !ca.Used {
+			u.Obls = append(u.Obls, &Obligation{Name: fmt.Sprintf("%s#bind.atcall(%s)", key, ca.Callee), Func: key, Kind: "bind", Label: ca.Clause.Label, Goal: "false", Guard: "true", unit: u,
+				Src: fmt.Sprintf("`at call %s` matches no call through a contract (no such call, or the callee has no contract and is inlined)", ca.Callee)})
+		}
+	}
 	// postconditions
 	sig := fn.Signature
 	_ = rets
@@ -221,6 +229,39 @@ func (p *Program) VerifyFunc(key string) (u *Unit, err error) {
 				renv.st = m
 			} else {
 				u.emitEvent(r.st, es.Kind, evs)
+			}
+		}
+	}
+	// event frame: callers havoc only the event kinds the contract lists (`emits`, `emit`), so at every return the
+	// count of any other kind must be what it was at entry (ghost kinds the engine emits by itself are included:
+	// Spawn, Close, ChanSend, MapGet_... all go through emitEvent).
+	if !fr.assignAll {
+		listed := map[string]bool{}
+		for _, k := range fc.Emits {
+			listed[k] = true
+		}
+		for _, es := range fc.EmitEvents {
+			listed[es.Kind] = true
+		}
+		var kinds []string
+		seen := map[string]bool{}
+		for _, r := range fr.rets {
+			for comp := range r.st.comp {
+				if strings.HasPrefix(comp, "cnt_") && !listed[comp[4:]] && !seen[comp] {
+					seen[comp] = true
+					kinds = append(kinds, comp[4:])
+				}
+			}
+		}
+		sort.Strings(kinds)
+		for _, kind := range kinds {
+			for k, r := range fr.rets {
+				now, was := u.get(r.st, "cnt_"+kind), u.get(fr.entry, "cnt_"+kind)
+				if now == was {
+					continue
+				}
+				u.obligeCase(fmt.Sprintf("%s#frame.emits(%s)", key, kind), key, "frame", "", p.pos(fn.Pos()),
+					fmt.Sprintf("event %s is not in the contract's emits list: none may be emitted", kind), r.guard, eq(now, was), nil, k)
 			}
 		}
 	}
